@@ -16,7 +16,7 @@
    and C09 proves predictions row-wise in the ids. *)
 From Coq Require Import ZArith List Bool.
 From Batchie Require Import Lib.Sexp Generated.Consts Generated.SrcArith Model.Encode Model.Screen Model.Reveal Model.Holdout
-  Proofs.C03Base Proofs.C03Screen Proofs.C12Reveal Proofs.C03Frozen Proofs.C03Witness.
+  Proofs.C03Base Proofs.C03Screen Proofs.C12Reveal Proofs.C03Frozen Proofs.C03Witness Generated.SrcReveal Proofs.C12Source.
 Import ListNotations.
 Open Scope Z_scope.
 
@@ -41,6 +41,36 @@ Theorem C03_source_carries_mappings :
      carry_unmask := SRC_unmask_screen_carries_mappings |} = carry_mappings true.
 Proof. reflexivity. Qed.
 Print Assumptions C03_source_carries_mappings.
+
+(* the same fact DERIVED FROM THE TRANSLATION of the three functions (Generated/SrcReveal.v, see Props/C12.v
+   the C12_model_is_source theorems): Screen(...) is the model's constructor applied to the keyword arguments the call site passes,
+   so a call site that stopped passing treatment_mapping= / sample_mapping= would translate to None there.
+   src_step s o / src_lifecycle p sel test ops (Proofs/C12Source.v) run the TRANSLATED reveal_plates / mask_screen /
+   unmask_screen (save+load and the split as in the model). *)
+Theorem C03_model_is_source_step : forall s o, src_step s o = step (carry_mappings true) s o.
+Proof. exact src_step_is_model. Qed.
+Print Assumptions C03_model_is_source_step.
+
+Theorem C03_model_is_source_lifecycle : forall p sel test ops,
+  src_lifecycle p sel test ops = lifecycle (carry_mappings true) p sel test ops.
+Proof. exact src_lifecycle_is_model. Qed.
+Print Assumptions C03_model_is_source_lifecycle.
+
+(* the translation DETERMINES the variant: the model equals the translated source on all inputs for exactly one
+   variant, and that is the one the call-site constants above name - the constants are consistent with the
+   translation (and no longer needed to know which variant the source is) *)
+Theorem C03_source_variant_unique : forall v,
+  (forall s o, src_step s o = step v s o) <->
+  v = {| carry_reveal := SRC_reveal_plates_carries_mappings; carry_mask := SRC_mask_screen_carries_mappings;
+         carry_unmask := SRC_unmask_screen_carries_mappings |}.
+Proof. exact source_variant_unique. Qed.
+Print Assumptions C03_source_variant_unique.
+
+(* ids_frozen stated of the translated source functions themselves *)
+Theorem C03_ids_frozen_of_source : forall p sel test ops s,
+  src_lifecycle p sel test ops = Ok s -> frozen_to p s.
+Proof. exact ids_frozen_of_source. Qed.
+Print Assumptions C03_ids_frozen_of_source.
 
 Theorem C03_ids_frozen : forall p sel test ops s,
   lifecycle (carry_mappings true) p sel test ops = Ok s -> frozen_to p s.
